@@ -372,6 +372,27 @@ theorem watchers_for_all_topics (c : Cfg) (s : St) (h : Reachable c s) (hp : s.p
 assignment -/
 theorem watchers_match_source : KV.Gen.Group.watcherRange = "Topics" := by decide
 
+/-! ### the coordinator that is dialled is the one FindCoordinator named -/
+
+/-- regenerated: the address of the second `connect` in `coordinator()` is `net.JoinHostPort` of the answer's
+`Coordinator.Host` and `Coordinator.Port` (in this order) -/
+theorem coordinator_dial_matches_source : KV.Gen.Group.coordinatorDial = ["JoinHostPort", "Host", "Port"] := by decide
+
+/-- the dialled address names the coordinator's host and port (plain host names / IPv4; the driver compares
+`coordinatorAddress` with what the library dials, IPv6 literals included) -/
+theorem coordinator_address_plain (host : String) (port : Int) (h : host.contains ':' = false) :
+    coordinatorAddress host port = host ++ ":" ++ toString port := by
+  simp [coordinatorAddress, h]
+
+/-! ### nothing configured: the documented defaults are the configured values -/
+
+/-- regenerated: every `if config.<F> == 0 { config.<F> = … }` of `ConsumerGroupConfig.Validate`, resolved through the
+`default…` constants, gives the documented default of that field (3 s heartbeats, 30 s session and rebalance time-outs,
+5 s join back-off and watch interval, retention -1, FirstOffset, [range, roundrobin], 5 s time-out) — whatever the order
+of the statements -/
+theorem defaults_match_documentation :
+    documentedGroupDefaults.all (fun kv => KV.Gen.Group.validateDefaults.lookup kv.1 == some kv.2) = true := by decide
+
 /-! ### a generation only after a successful OffsetFetch (hypothesis of C03 `start_at_committed`) -/
 
 /-- a failed OffsetFetch — any error class — makes `nextGeneration` return the error: no generation can be created next -/
